@@ -57,13 +57,19 @@ type Ctx struct {
 	extra     map[string]interface{}
 	// sharing obligations of another property (see shared): only the rules listed are kept, under
 	// their new names
-	ruleRename map[string]string
+	ruleRename   map[string]string
+	sharingDepth int
 }
 
 // shared runs the obligations of another property's check function inside this property, keeping
 // only the rules named in rename (old rule name -> rule name in this property). The other property's
 // explanation / assumptions are not taken over.
 func (c *Ctx) shared(from func(*Ctx), rename map[string]string) {
+	if c.sharingDepth >= 1 {
+		return // nested sharing (A shares B, B shares C / A): only the rules named by the outermost call are taken over
+	}
+	c.sharingDepth++
+	defer func() { c.sharingDepth-- }()
 	expl, nd, as := c.Explanation, c.NotDecided, c.Assumptions
 	prev := c.ruleRename
 	c.ruleRename = rename
